@@ -565,6 +565,23 @@ static void leak_check(Run &r, int t, int i, const char *when) {
 #include <fcntl.h>
 static int count_open_fds() { int n = 0; for (int fd = 0; fd < 192; fd++) if (fcntl(fd, F_GETFD) != -1) n++; return n; }
 
+// Strings placed so that their terminator is the last byte of a page and the next page is inaccessible: the library
+// may read exactly the string.  (Legal placement; a result that changes, or a fault, means the call looks beyond it.)
+static const char *guard_place(const std::string &str, int which) {
+  static thread_local char *area[2];
+  const size_t PG = 4096, span = 2 * PG;   // strings are < 4 KiB here
+  if (!area[which]) {
+    char *m = (char *)mmap(nullptr, span + PG, PROT_READ | PROT_WRITE, MAP_PRIVATE | MAP_ANONYMOUS, -1, 0);
+    if (m == MAP_FAILED) crash_exit("machinery", "guard mmap");
+    mprotect(m + span, PG, PROT_NONE);
+    area[which] = m;
+  }
+  if (str.size() + 1 > span) return nullptr;
+  char *dst = area[which] + span - (str.size() + 1);
+  memcpy(dst, str.c_str(), str.size() + 1);
+  return dst;
+}
+
 // hashing entry points ------------------------------------------------------
 static void exec_hash(Run &r, int t, int i, const J &op) {
   TaskCtx &tc = r.tc[t];
@@ -629,6 +646,10 @@ static void exec_hash(Run &r, int t, int i, const J &op) {
     memcpy(cd->setting, c.setting.b.c_str(), c.setting.b.size() + 1); stp = cd->setting; stat("probe_setting_in_object"); if (obj) obj->setting_tainted = true;
   }
 
+  if (op.i("guard") && !thr::enabled) {
+    if (php && php == c.phrase.cstr()) { const char *q = guard_place(c.phrase.b, 0); if (q) { php = q; stat("probe_phrase_at_page_end"); } }
+    if (stp && stp == c.setting.cstr()) { const char *q = guard_place(c.setting.b, 1); if (q) { stp = q; stat("probe_setting_at_page_end"); } }
+  }
   // application scribbles over the scratch area (legal: the object is the caller's)
   std::string pre = op.str("pre", "keep");
   if (obj && cd && full_object && pre != "keep") {   // only the caller's own objects: crypt()'s static one is not the application's to write
